@@ -3,7 +3,7 @@ import random, re
 from common import *
 
 ID = "C13"
-THEOREM_FILES = ["Summer.Props.C13", "Summer.Props.C13Source", "Summer.Props.C08Source", "Summer.Props.C04Source"]
+THEOREM_FILES = ["Summer.Props.C13Inspect", "Summer.Props.C13", "Summer.Props.C13Source", "Summer.Props.C08Source", "Summer.Props.C04Source"]
 TASK = "task"
 RULE = ("stratified models (1-3 stratifications, full and partial; flow names shared between entry, exit and transition flows in a third of the "
         "models); filtered raw flow outputs and compartment outputs of a solved model vs sums over brute-force selected flow-rate / state columns; "
@@ -186,12 +186,20 @@ def task(W, payload):
             which = r.choice(["src", "dst", "both", "none"])
             fs = flt if which in ("src", "both") else []
             fd = (flt if which == "dst" else rand_filter(r, comps, r.choice(["partial", "empty", "full"]))) if which in ("dst", "both") else []
+            # every fourth flow query: an end filter that also NAMES the compartment (reserved key "name"): the end must then exist and carry
+            # that name, and the remaining keys are a strata filter as before
+            sn = dn = None
+            if r.random() < 0.25 and which in ("src", "both"):
+                sn = r.choice(comps)[0]; fs = [["name", sn]] + [list(kv) for kv in fs]; bump(out, "query_flows:source_named")
+            if r.random() < 0.25 and which in ("dst", "both"):
+                dn = r.choice(comps)[0]; fd = [["name", dn]] + [list(kv) for kv in fd]; bump(out, "query_flows:dest_named")
             op = {"op": "query_flows", "name": name, "src": fs, "dst": fd}
             py = S.I.apply(op); ln = S.L.send(op)
             out["evals"] += 1
-            brute = [i for i, f in enumerate(m.flows) if (name is None or f.name == name)
-                     and (f.source is None or all(f.source.strata.get(k) == v for k, v in fs))
-                     and (f.dest is None or all(f.dest.strata.get(k) == v for k, v in fd))]
+            def end_ok(e, nm, f_):
+                if nm is not None and (e is None or e.name != nm): return False
+                return e is None or all(e.strata.get(k) == v for k, v in f_ if k != "name")
+            brute = [i for i, f in enumerate(m.flows) if (name is None or f.name == name) and end_ok(f.source, sn, fs) and end_ok(f.dest, dn, fd)]
             if not py["ok"]:
                 fail(out, "query_flows raised", "c13", payload, query=op, err=py.get("err"), program=prog["build"])
             else:
